@@ -207,7 +207,38 @@ def run_program(rec, hub, seed_rng, steps, letters="abcd", ill_rate=0.3, props=(
             Ut["t"] = tdim
             ds = fd.DimensionSet(dim_list=[Ut[l] for l in sl])
             good = fd.StockArray(dims=ds, values=np.abs(gen.values_one("dyadic", rng, ds.shape)))
-            c = int(rng.integers(0, 5)) if ill else -1
+            c = int(rng.integers(0, 7)) if ill else -1
+            if c >= 5:
+                # a compute() that cannot succeed, on a stock holding the user's data (a first estimate in the array that compute would
+                # fill): whatever raises must leave the stock's arrays as they were
+                ds_c = ds if len(sl) > 1 else fd.DimensionSet(dim_list=[Ut["t"], U[letters[0]]])
+                shp = ds_c.shape
+                last = (slice(None),) + tuple(n_ - 1 for n_ in shp[1:])  # the LAST label combination
+                guess = fd.StockArray(dims=ds_c, values=np.full(shp, 7.0))
+                sv = np.cumsum(np.abs(gen.values_one("dyadic", rng, shp)) + 1.0, axis=0)
+                how = int(rng.integers(0, 4))
+                solver = str(rng.choice(["lapack", "manual"]))
+                if how == 0:  # a gap in the data of the last label
+                    sv[(int(rng.integers(0, shp[0])),) + last[1:]] = np.nan
+                    mk_ = lambda: fd.StockDrivenDSM(dims=ds_c, stock=fd.StockArray(dims=ds_c, values=sv), inflow=guess, lifetime_model=fd.NormalLifetime(dims=ds_c, time_letter="t", mean=4.0, std=1.5), solver=solver, time_letter="t")
+                elif how == 1:  # nothing of the last label survives its first year: singular system for that label only
+                    mean = np.full(shp, 5.0)
+                    mean[last] = 0.25
+                    mk_ = lambda: fd.StockDrivenDSM(dims=ds_c, stock=fd.StockArray(dims=ds_c, values=sv), inflow=guess, lifetime_model=fd.FixedLifetime(dims=ds_c, time_letter="t", mean=mean), solver=solver, time_letter="t")
+                elif how == 2:  # parameters never set
+                    mk_ = lambda: fd.InflowDrivenDSM(dims=ds_c, inflow=fd.StockArray(dims=ds_c, values=sv), stock=guess, lifetime_model=fd.WeibullLifetime(dims=ds_c, time_letter="t"), time_letter="t")
+                else:  # a quadrature order the table builder refuses
+                    mk_ = lambda: fd.InflowDrivenDSM(dims=ds_c, inflow=fd.StockArray(dims=ds_c, values=sv), outflow=guess, lifetime_model=fd.LogNormalLifetime(dims=ds_c, time_letter="t", mean=4.0, std=1.0, n_pts_per_interval=12), time_letter="t")
+
+                def failing_compute():
+                    s_ = mk_()
+                    try:
+                        s_.compute()  # judged by the monitors in the wrapper (atomicity of a raising call)
+                    except Exception:
+                        pass
+                    return [s_.stock, s_.inflow, s_.outflow]
+
+                return (f"stock: compute that cannot succeed ({how}, {solver})", None, [failing_compute])
             if c == 0 and len(sl) > 1:  # array with permuted dims
                 bad = fd.StockArray(dims=fd.DimensionSet(dim_list=[Ut[l] for l in sl[::-1]]))
                 return ("stock: inflow dims permuted", None, [lambda: fd.SimpleFlowDrivenStock(dims=ds, inflow=bad, time_letter="t")])
